@@ -260,13 +260,19 @@ def run(ctx):
                                strip(strip(strip(t[2][-1])[2])[2][-1]) == ("param", v3w.params[1]) for t in sup)
     ctx.ob("C01.c", v3w.qual, enc_ok, "V3 write sends _encode_encrypted_request(counter, data) for data packets", func=v3w.qual, file=v3w.module.rel, construct="super().write(packet)",
            fail="the V3 data path does not send the encrypted encoding of the given data")
+    def queue_pop(x):
+        """x takes the next packet off the receive queue: _read_queue(), the base read(), or queue.get() / get_nowait() itself"""
+        x = strip(x)
+        if call_is(x, f"{V2}._read_queue") or call_is(x, f"{V2}.read"):
+            return True
+        return x[0] == "call" and x[1][0] == "meth" and x[1][2] in ("get", "get_nowait") and strip(x[1][1])[0] == "attr" and strip(x[1][1])[2] == "_queue"
     v3r = ctx.fn(f"{V3}.read")
     rr = [t for _pc, t, n, _ in summarize(prog, v3r).returns if n is not None]
-    r3_ok = len(rr) == 1 and call_is(strip(rr[0]), f"{V3}._process_packet") and any(call_is(x, f"{V2}._read_queue") for x in subterms(rr[0]))
+    r3_ok = len(rr) == 1 and call_is(strip(rr[0]), f"{V3}._process_packet") and any(queue_pop(x) for x in subterms(rr[0]))
     ctx.ob("C01.c", v3r.qual, r3_ok, "V3 read returns _process_packet(<queued packet>)", func=v3r.qual, file=v3r.module.rel, construct="read", fail="V3 read does not decode the queued packet")
     v2r = ctx.fn(f"{V2}.read")
     rr2 = [t for _pc, t, n, _ in summarize(prog, v2r).returns if n is not None]
-    r2_ok = len(rr2) == 1 and strip(rr2[0])[0] == "await" and call_is(strip(strip(rr2[0])[1]), f"{V2}._read_queue")
+    r2_ok = bool(rr2) and all(any(queue_pop(x) for x in subterms(t)) for t in rr2)
     ctx.ob("C01.c", v2r.qual, r2_ok, "V2 read returns the queued packet", func=v2r.qual, file=v2r.module.rel, construct="read", fail="V2 read does not return the queued packet")
     # every constructed response reaches _update_state
     for q in (f"{AC}.refresh", f"{AC}.apply", f"{AC}._apply_properties"):
